@@ -172,7 +172,8 @@ const risWatchdog = 20 * time.Second
 // runRIS executes one case; id makes the goroutine labels unique. wedged reports a watchdog expiry (decides nothing).
 func runRIS(c risCase, id string, st *seqStats, viol func(string, map[string]string, string)) (wedged string) {
 	g := newRig(0, c.Routes)
-	ck := newChecker(g, st, viol)
+	failed := false // the first event after which the table is wrong ends the case: what follows would only echo it
+	ck := newChecker(g, st, func(cl string, f map[string]string, d string) { failed = true; viol(cl, f, d) })
 	tc := &tokClient{g: g, by: map[interface{}]*risSrc{}}
 	srcs := make([]*risSrc, c.NSrc)
 	await := func(ch chan struct{}, what string) bool {
@@ -279,7 +280,9 @@ func runRIS(c risCase, id string, st *seqStats, viol func(string, map[string]str
 			st.byOp["ris-"+o.K]++
 		}
 		st.ops++
-		ck.verify(i, "ris-"+o.K, trace)
+		if ck.verify(i, "ris-"+o.K, trace); failed {
+			break
+		}
 	}
 	return
 }
